@@ -89,7 +89,20 @@ RULE = ('rotation cases = (ns, we, dt) pairs: gen.record classes, amplitudes 1e-
         'sign) patterns, modes exact / history (8 x 141 cases quick, 120 x 141 thorough); same_start windows with the documented '
         'sentinel end=-1 ("to the end of the record": default start, start=0, start at a sample time, the last sample but one, '
         'random start; -1 as int / float / np.int64 / np.float64) in 14% of all same_start calls of every mode; the defaults of '
-        'get_section_average (no arguments, start=0, end=-1, positional (0, -1, False), module function) read on the members.')
+        'get_section_average (no arguments, start=0, end=-1, positional (0, -1, False), module function) read on the members. '
+        'Round 5 (checklist 28-33): scalar forms - the angle, the scan offset (float / int / np.float64 / np.int64 / 0-d float and int '
+        'arrays), points (int / np.int64 / np.int32 / 0-d), the common time step of the two components (float / np.float64 / 0-d array, '
+        'one shared object in 30% of the cases) and of a cluster (float / np.float64 / 0-d array shared by the cluster, its twins and all '
+        'members / Python int 1, 2), steps (int / np.int64 / np.int32 / 0-d), start / end of 12% of the same_start windows and the -1 '
+        'sentinel as 0-d arrays, index windows as 0-d arrays; every 0-d array handed over is held and must keep its value; flags: verbose as '
+        '1 / True / np.True_ / 0-d, index as True / np.True_ / 0-d / 1, and the UNSET forms np.False_ / 0-d False / 0 of index (same section '
+        'read with index=False) and of set_step. bool-dtype records (runs of on / off, array and list of bools) as rotation components and as '
+        'cluster containers (all modes that integer containers take). The index form with the sentinel end=-1. Settings: every time_match / '
+        'same_start is framed by a snapshot of master_index, dt, names, master, order, response_times, freq_range and each member\'s '
+        'label / dt / smooth_fa_freqs / response_times; 30% of the clusters get user periods resp_times (1, 2, 3 or 31 entries from 0.5 dt to '
+        '300 dt; ndarray / list / tuple), read as s_a when 0.002 <= dt <= 0.1. Results: the arrays of a combine_at_angle result and of the '
+        '(angles, values) of two scans are overwritten and the same calls repeated. The end=-1 oracle fixes ONE reading per tree from '
+        'probe records (install) instead of accepting either reading per call.')
 ASSUMPTIONS = [
     'NaN-free real records; both components have the same length and dt',
     '|theta| <= 3600 degrees (the degree->radian rounding stays far below the 1e-12 relative allowance); a theta handed over '
@@ -144,6 +157,16 @@ ASSUMPTIONS = [
     'judged. The same for rotation components of unequal length / time step',
     'shallow copies (copy.copy) of a signal share the value buffer by definition: only rebinding operations (reset_values) are '
     'driven on them; a shallow copy of a Cluster shares its signals and is not driven',
+    'round 5: a 0-d array handed over where a scalar is usual counts as the scalar it holds and belongs to the caller (its value after '
+    'the call is judged); float32 forms of the scan offset, of time steps and of window times are not driven (they change the arithmetic, '
+    'not the form); unsigned steps (np.uint8(10): -steps wraps, eqsig raises ValueError) are not driven - the checklist names signed forms',
+    'round 5: an unset flag in the forms np.False_ / 0-d False / 0 means False. On the clean tree get_section_average(index=np.False_) takes '
+    'the index branch and time_match(set_step=np.False_) raises UnboundLocalError (`is False` tests): both mechanisms are routed to '
+    'observations until ruled on - the index flag is judged since fix F46 of eqsig, the set_step form is ruled outside the statement; set_step=0 is not driven (an integer there may mean a step)',
+    'round 5: "to the end of the record" (end = -1) has ONE reading per tree, taken from probe records at install on which the two readings '
+    '(with / without the last sample) differ widely, in every calling form; a tree whose probes disagree is a violation',
+    'round 5: response periods given to Cluster(resp_times=...) are a setting: stored value for value on the cluster and on every AccSignal '
+    'member, never changed by reads or operations; the spectra read at them are not judged here (C01 / C03)',
     'a cluster handed over as float32 stays float32 inside eqsig; same_start is then judged with 1e-5 instead of 1e-12 '
     '(time_match and the rotation functions are judged as for float64: shifts are exact, rotation promotes to float64)',
 ]
@@ -206,6 +229,13 @@ MIN_EVALS = {
         'section-average(end=-1)==mean(samples from start to the end of the record)': 4500,
         'time_match.lag-removed(short record, |L| >= npts//2)': 750,
         'time_match.lag-removed(short record: npts < 2*steps+2)': 2200,
+        # round 5
+        'cluster.settings-unchanged(master_index, dt, names, periods, member labels / steps / frequencies)': 7000,
+        'cluster.step-and-periods-as-given(after reads and operations)': 1700,
+        'rotation.result-belongs-to-caller(overwritten, same call repeated)': 740,
+        'scalar-arguments-unchanged(0-d arrays are mutable)': 12000,
+        'section-average(end=-1).one-reading-per-tree(probe records)': 8,
+        'section-average(index=False-like flag: np.False_, 0-d, 0)==section-average(index=False)': 400,
     },
     'thorough': {
         'cluster.caller-arrays-unchanged': 21000,
@@ -265,6 +295,13 @@ MIN_EVALS = {
         'section-average(end=-1)==mean(samples from start to the end of the record)': 75000,
         'time_match.lag-removed(short record, |L| >= npts//2)': 11000,
         'time_match.lag-removed(short record: npts < 2*steps+2)': 32000,
+        # round 5
+        'cluster.settings-unchanged(master_index, dt, names, periods, member labels / steps / frequencies)': 120000,
+        'cluster.step-and-periods-as-given(after reads and operations)': 29000,
+        'rotation.result-belongs-to-caller(overwritten, same call repeated)': 14000,
+        'scalar-arguments-unchanged(0-d arrays are mutable)': 200000,
+        'section-average(end=-1).one-reading-per-tree(probe records)': 8,
+        'section-average(index=False-like flag: np.False_, 0-d, 0)==section-average(index=False)': 6500,
     },
 }
 EXHAUSTIVE = {'quick': 'every (cluster size 2..4, master index, lag-sign pattern in {0,+,-}^(size-1)) = 141 patterns, each '
@@ -290,7 +327,8 @@ QUADRANT = {0: (1, 'ns'), 90: (1, 'we'), 180: (-1, 'ns'), 270: (-1, 'we'), 360: 
 OFFSET_KINDS = [0, 90, 180, 270, 30, -45, 'random', 1, 57.29577951308232, 540, -725, 3.141592653589793, 'random-large']
 POINTS = [2, 5, 100, 3, 7, 1, 31, 32, 33, 63, 64, 65, 127, 128, 256]
 POINTS2 = [5, 2, 3, 7, 1, 129, 33, 65]
-INT_FORMS = {'i64': 'int64', 'i32': 'int32', 'i16': 'int16', 'i8': 'int8', 'u8': 'uint8', 'u16': 'uint16'}
+INT_FORMS = {'i64': 'int64', 'i32': 'int32', 'i16': 'int16', 'i8': 'int8', 'u8': 'uint8', 'u16': 'uint16',
+             'bool': 'bool'}       # round 5: bool-dtype records (on/off, rectangular pulses) are cast to float like integer counts
 
 
 def rtol_rot_f32(theta_deg):
@@ -305,6 +343,8 @@ def n_shards(tier):
 
 # ------------------------------------------------------------------------------------------------ containers / dtypes
 def int_range(form):
+    if form == 'bool':
+        return 0, 1
     ii = np.iinfo(INT_FORMS[form])
     return max(int(ii.min), -2 ** 40), min(int(ii.max), 2 ** 40)
 
@@ -320,6 +360,8 @@ def apply_form(v, form):
         return [float(x) for x in v]
     if form == 'list-int':
         return [int(x) for x in v]
+    if form == 'list-bool':
+        return [bool(x) for x in v]
     if form == 'tuple-float':
         return tuple(float(x) for x in v)
     if form == 'mixed-list':
@@ -346,7 +388,63 @@ def unchanged(container, snap):
     return now.dtype == snap.dtype and now.shape == snap.shape and bool(np.array_equal(now, snap))
 
 
+def _scalar(v):
+    """A 0-d array handed over where a scalar is usual counts as that scalar (numpy scalar of the same dtype)."""
+    if isinstance(v, np.ndarray) and v.ndim == 0:
+        return v[()]
+    return v
+
+
+HELD = []             # (0-d array handed to eqsig as a scalar argument, its value at hand-over, what it was)
+
+
+def hold(obj, what):
+    """Round 5: 0-d arrays are MUTABLE scalars - remember what the caller handed over; judged by check_held."""
+    if isinstance(obj, np.ndarray):
+        HELD.append((obj, obj.copy(), what))
+    return obj
+
+
+def check_held(ctx, case, where):
+    for obj, snap, what in HELD:
+        ctx.check(unchanged(obj, snap), 'scalar-arguments-unchanged(0-d arrays are mutable)',
+                  lambda: dict(case, failing={'relation': 'a 0-d array handed over as a scalar argument keeps its value', 'argument': what,
+                                              'before': snap, 'after': np.array(obj), 'where': where}),
+                  'the 0-d array handed over as %s was %r and is %r after the calls (%s): the function wrote into the caller\'s scalar'
+                  % (what, snap[()], obj[()] if obj.ndim == 0 else obj, where))
+    del HELD[:]
+
+
+def scalar_obj(x, form):
+    """The number x in one of the scalar forms a caller may use (round 5)."""
+    if form in ('0d', '0d-float'):
+        return np.array(float(x))
+    if form == '0d-int':
+        return np.array(int(x))
+    if form == '0d-bool':
+        return np.array(bool(x))
+    if form == 'np.bool':
+        return np.bool_(bool(x))
+    if form == 'np.float64':
+        return np.float64(x)
+    if form == 'np.int64':
+        return np.int64(int(x))
+    if form == 'np.int32':
+        return np.int32(int(x))
+    if form == 'np.intp':
+        return np.intp(int(x))
+    if form == 'int':
+        return int(x)
+    if form == 'bool':
+        return bool(x)
+    if form == 'as-is':
+        return x
+    return float(x)
+
+
 def angle_obj(th, form):
+    if form == '0d-int':
+        return np.array(int(th))
     if form == 'int':
         return int(th)
     if form == 'np.int64':
@@ -508,7 +606,10 @@ def _pre_rot(args, kwargs):
     try:
         ns = _arg(args, kwargs, 0, 'acc_sig_ns')
         we = _arg(args, kwargs, 1, 'acc_sig_we')
-        return np.array(ns.values, copy=True), np.array(we.values, copy=True)
+        a2 = args[2] if len(args) > 2 else kwargs.get('angle', kwargs.get('angle_off_ns', 0.0))
+        if isinstance(a2, np.ndarray):       # a 0-d array is mutable: the oracle uses the value at call entry
+            a2 = a2.copy()[()] if a2.ndim == 0 else a2.copy()
+        return np.array(ns.values, copy=True), np.array(we.values, copy=True), float(ns.dt), a2      # dt may be a (mutable) 0-d array
     except Exception:
         return None
 
@@ -526,6 +627,7 @@ def _post_combine(args, kwargs, result, pre):
     we = _arg(args, kwargs, 1, 'acc_sig_we')
     angle = _arg(args, kwargs, 2, 'angle')
     try:
+        angle = pre[3]
         a = np.asarray(pre[0], dtype=float)
         b = np.asarray(pre[1], dtype=float)
         th = float(angle)
@@ -568,16 +670,17 @@ def _post_scan(args, kwargs, result, pre):
     off = _arg(args, kwargs, 2, 'angle_off_ns', 0.0)
     parameter = _arg(args, kwargs, 3, 'parameter', None)
     func = _arg(args, kwargs, 4, 'func', None)
-    points = _arg(args, kwargs, 5, 'points', 100)
+    points = _scalar(_arg(args, kwargs, 5, 'points', 100))      # a 0-d integer array counts as that integer
+    off = _scalar(off) if pre is None else pre[3]                # the offset at call entry
     try:
         a = np.asarray(pre[0], dtype=float)
         b = np.asarray(pre[1], dtype=float)
         offf = float(off)
+        dt = pre[2]                                              # the step at call entry (the caller's, round 5)
     except Exception:
         ctx.observe('compute_rotated.out-of-domain-call')
         return
-    dt = ns.dt
-    if (not isinstance(points, (int, np.integer))) or points < 1 or not math.isfinite(offf) or abs(offf) > 3600 \
+    if (not isinstance(points, (int, np.integer))) or isinstance(points, (bool, np.bool_)) or points < 1 or not math.isfinite(offf) or abs(offf) > 3600 \
             or (isinstance(off, np.floating) and off.dtype.itemsize < 8) \
             or not (np.all(np.isfinite(a)) and np.all(np.isfinite(b))):
         ctx.observe('compute_rotated.out-of-domain-call')
@@ -656,11 +759,46 @@ def _post_scan(args, kwargs, result, pre):
 
 
 # ------------------------------------------------------------------------------------------------ cluster monitors
+def _settings(c):
+    """Round 5: everything the user SET on a cluster and its members (never derived data): copies, taken at call entry / exit."""
+    def arr(x):
+        return None if x is None else np.array(x, copy=True)
+    sigs = [c.signal_by_index(i) for i in range(len(c.signals))]
+    return {'master_index': int(c.master_index), 'dt': float(c.dt), 'names': list(c.names), 'master': c.master,
+            'n_signals': len(sigs), 'order': [c.name_by_index(i) for i in range(len(sigs))],
+            'response_times': arr(getattr(c, 'response_times', None)), 'freq_range': arr(getattr(c, 'freq_range', None)),
+            'members': [{'type': type(s_).__name__, 'label': s_.label, 'dt': float(s_.dt),
+                         'smooth_fa_freqs': arr(s_.smooth_fa_freqs),
+                         'response_times': arr(getattr(s_, 'response_times', None))} for s_ in sigs]}
+
+
+def _same_setting(a, b):
+    if isinstance(a, dict):
+        return isinstance(b, dict) and sorted(a) == sorted(b) and all(_same_setting(a[k], b[k]) for k in a)
+    if isinstance(a, list):
+        return isinstance(b, list) and len(a) == len(b) and all(_same_setting(x, y) for x, y in zip(a, b))
+    if isinstance(a, np.ndarray):
+        return isinstance(b, np.ndarray) and unchanged(b, a)
+    return type(a) is type(b) and a == b
+
+
+def _check_settings(ctx, c, pre, op, kwargs):
+    try:
+        now = _settings(c)
+        bad = sorted(k for k in now if not _same_setting(pre['settings'][k], now[k]))
+    except Exception as e:
+        bad = ['unreadable: %r' % (e,)]
+    ctx.check(not bad, 'cluster.settings-unchanged(master_index, dt, names, periods, member labels / steps / frequencies)',
+              lambda: _cluster_witness(pre, op, kwargs, changed=bad),
+              '%s changed what the user had set on the cluster or its members: %s' % (op, bad))
+
+
 def _pre_cluster(args, kwargs):
     c = args[0]
     sigs = [c.signal_by_index(i) for i in range(len(c.signals))]
-    return {'values': [np.array(s.values, dtype=float, copy=True) for s in sigs],
-            'npts': [s.npts for s in sigs], 'master': c.master_index, 'dt': c.dt,
+    return {'values': [np.array(s.values, dtype=float, copy=True) for s in sigs], 'settings': _settings(c),
+            'kwargs': {k: (v.copy()[()] if isinstance(v, np.ndarray) and v.ndim == 0 else v) for k, v in kwargs.items()},   # at call entry
+            'npts': [s.npts for s in sigs], 'master': c.master_index, 'dt': float(c.dt),      # (dt may be a mutable 0-d array)
             'stypes': [type(s).__name__ for s in sigs],
             'dtypes': [str(getattr(s.values, 'dtype', type(s.values).__name__)) for s in sigs]}
 
@@ -680,12 +818,16 @@ def _cluster_witness(pre, op, kwargs, **kw):
 def _post_time_match(args, kwargs, result, pre):
     ctx = CTX
     c = args[0]
-    steps = kwargs.get('steps', 10)
+    kwargs = pre['kwargs']                         # the arguments as they were at call entry (0-d arrays are mutable)
+    steps = _scalar(kwargs.get('steps', 10))       # a 0-d integer array counts as that integer (round 5)
     vals = pre['values']
     m = pre['master']
     nsig = len(vals)
     n = len(vals[m])
-    if (kwargs.get('set_step', False) is not False or nsig < 2 or not isinstance(steps, (int, np.integer)) or steps < 1
+    _check_settings(ctx, c, pre, 'time_match', kwargs)
+    sst = _scalar(kwargs.get('set_step', False))
+    if (not (sst is False or (isinstance(sst, np.bool_) and not sst)) or nsig < 2 or not isinstance(steps, (int, np.integer))
+            or isinstance(steps, (bool, np.bool_)) or steps < 1
             or any(len(v) != n for v in vals) or n <= steps
             or not all(np.all(np.isfinite(v)) for v in vals)):
         ctx.observe('time_match.out-of-domain-call')
@@ -754,12 +896,16 @@ def _post_time_match(args, kwargs, result, pre):
 def _post_same_start(args, kwargs, result, pre):
     ctx = CTX
     c = args[0]
-    start = kwargs.get('start', 0)
-    end = kwargs.get('end', 1)
+    kwargs = pre['kwargs']                         # the arguments as they were at call entry (0-d arrays are mutable)
+    start = _scalar(kwargs.get('start', 0))        # 0-d arrays count as the scalars they hold (round 5)
+    end = _scalar(kwargs.get('end', 1))
     vals = pre['values']
     m = pre['master']
     dt = pre['dt']
+    if CURRENT is not None and CURRENT.get('kind') == 'cluster':
+        dt = float(CURRENT['dt'])                  # the step the CALLER gave, not the object's copy of it
     nsig = len(vals)
+    _check_settings(ctx, c, pre, 'same_start', kwargs)
     # the documented sentinel of get_section_average / time_indices: end = -1 means "to the end of the record"
     sentinel = _is_number(end) and end == -1
     try:
@@ -834,13 +980,15 @@ def _post_same_start(args, kwargs, result, pre):
                   'the shift %r by %.3g > %.3g; length %d -> %d)' % (i, jw, shift, dev, allowed, len(vals[i]), len(aft[i])))
         if sent_means is not None:
             devs = [abs(sm[i] - sm[m]) for sm in sent_means]
-            oks = any(math.isfinite(d_) and d_ <= rt_avg * scale for d_ in devs)
+            # round 5: ONE reading of "to the end" per tree (fixed by probe records at install), applied to every record
+            oks = [math.isfinite(d_) and d_ <= rt_avg * scale for d_ in devs][_end_reading()]
             ctx.check(oks, 'same_start.section-average(end=-1: to the end of the record)==master',
                       lambda: wit(signal=i, first_sample=i0, means_without_last_sample=[sent_means[0][i], sent_means[0][m]],
                                   means_with_last_sample=[sent_means[1][i], sent_means[1][m]], allowed=rt_avg * scale),
                       'same_start(start=%r, end=%r), %d signals, master %d: afterwards the mean of signal %d from sample %d to the end '
-                      'of the record differs from the master\'s both without the last sample (|diff| %.3g) and with it (|diff| %.3g); '
-                      'allowed %.3g' % (start, end, nsig, m, i, i0, devs[0], devs[1], rt_avg * scale))
+                      'of the record (%s, the reading this tree shows on the probe records) differs from the master\'s: |diff| %.3g '
+                      'without the last sample, %.3g with it; allowed %.3g'
+                      % (start, end, nsig, m, i, i0, END_READINGS[_end_reading()], devs[0], devs[1], rt_avg * scale))
         if avx is not None:
             okx = math.isfinite(avx[i]) and abs(avx[i] - avx[m]) <= rt_avg * scale
             ctx.check(okx, 'same_start.section-average(index-form)==master',
@@ -865,13 +1013,85 @@ def _is_number(v):
     return isinstance(v, (int, float, np.integer, np.floating)) and not isinstance(v, (bool, np.bool_))
 
 
+END_READINGS = ('without the last sample', 'with the last sample')
+END_READING = None    # round 5 (checklist 33): the ONE reading of "end = -1: to the end of the record" this tree shows on probe records
+
+
+def _end_reading():
+    return 0 if END_READING is None else END_READING       # (probe failed: already reported; judge with the source's reading)
+
+
+def probe_end_convention(eqsig, ctx):
+    """The oracle of the end = -1 sentinel accepts two readings of "to the end of the record" (the source slices values[s:-1], the
+    docstrings do not say). Accepting either PER CALL lets a degenerate record satisfy "some reading" trivially, so the reading is
+    fixed ONCE per tree here, from probe records on which the two readings differ widely, in every calling form (defaults,
+    explicit int / float sentinel, start at a later sample, Signal / AccSignal, through same_start), and is then applied to every record."""
+    global END_READING
+    seen = {}
+    probes = [([0.0, 0.0, 0.0, 0.0, 8.0], 1.0), ([1.0, 2.0, 4.0, 8.0, 16.0, 32.0, 64.0], 0.01), ([5.0, -3.0], 0.5),
+              ([2.0, 2.0, 2.0, -40.0], 0.25)]
+    with attach.paused():
+        for v, dt in probes:
+            for cls in (eqsig.Signal, eqsig.AccSignal):
+                for j0 in sorted({0, 1, len(v) - 2}):
+                    if j0 > len(v) - 2 or O.whole_sample_time(j0 * dt, dt, len(v)) != j0:
+                        continue
+                    calls = {'end=-1': lambda s_: s_.get_section_average(start=j0 * dt, end=-1),
+                             'end=-1.0': lambda s_: s_.get_section_average(start=j0 * dt, end=-1.0),
+                             'function': lambda s_: eqsig.fns.average.get_section_average(s_, j0 * dt)}
+                    if j0 == 0:
+                        calls['defaults'] = lambda s_: s_.get_section_average()
+                    refs = [O.section_mean(v, j0, len(v) - drop)[0] for drop in (1, 0)]
+                    for name, f in calls.items():
+                        key = '%s %s n=%d start=%d*dt' % (name, cls.__name__, len(v), j0)
+                        try:
+                            got = float(f(cls(np.array(v), dt)))
+                            fits = [abs(got - r_) <= 1e-12 * max(abs(x) for x in v) for r_ in refs]
+                            seen[key] = 0 if fits == [True, False] else (1 if fits == [False, True] else 'neither (%r)' % got)
+                        except Exception as e:
+                            seen[key] = 'raises %r' % (e,)
+    kinds = set(seen.values())
+    okk = len(kinds) == 1 and kinds <= {0, 1}
+    if okk:
+        END_READING = kinds.pop()
+    ctx.check(okk, 'section-average(end=-1).one-reading-per-tree(probe records)',
+              {'kind': 'end-convention-probe', 'seen': {k: str(v) for k, v in seen.items()}},
+              'on the probe records the sentinel end = -1 does not follow ONE reading of "to the end of the record": %s'
+              % sorted((k, v if not isinstance(v, int) else END_READINGS[v]) for k, v in seen.items())[:8])
+    ctx.note('end=-1 reading of this tree', END_READINGS[_end_reading()] if okk else 'none')
+
+
+def _flag_true(index):
+    """Boolean-like forms of a set flag: True, np.True_, a 0-d bool array, 1 (round 5)."""
+    index = _scalar(index)
+    return index is True or (isinstance(index, np.bool_) and bool(index)) or (type(index) is int and index == 1)
+
+
 def _post_section_average(args, kwargs, result, pre):
     """get_section_average with the section given as sample indices (index=True): the mean of the samples start..end-1."""
     ctx = CTX
     index = _arg(args, kwargs, 3, 'index', False)
     series = _arg(args, kwargs, 0, 'series')
-    start = _arg(args, kwargs, 1, 'start', 0)
-    end = _arg(args, kwargs, 2, 'end', -1)
+    start = _scalar(_arg(args, kwargs, 1, 'start', 0))
+    end = _scalar(_arg(args, kwargs, 2, 'end', -1))
+    if _flag_true(index) and _is_index(start) and _is_index(end) and end == -1 and pre is not None and pre.ndim == 1 \
+            and pre.dtype.kind in 'fiu' and 0 <= start <= pre.size - 2 and np.all(np.isfinite(pre)):
+        # round 5: the index form with the sentinel / default end = -1: from sample `start` to the end of the record, in the ONE
+        # reading of "to the end" this tree shows on the probe records
+        start = int(start)
+        ref, wmax = O.section_mean(pre.tolist(), start, pre.size - (1, 0)[_end_reading()])
+        rt = RTOL_AVG_F32 if pre.dtype.itemsize < 8 and pre.dtype.kind == 'f' else RTOL_AVG
+        try:
+            got = float(result)
+            okk = np.ndim(result) == 0 and math.isfinite(got) and abs(got - ref) <= rt * wmax
+        except Exception:
+            got, okk = result, False
+        ctx.check(okk, 'section-average(end=-1)==mean(samples from start to the end of the record)',
+                  lambda: dict(CURRENT or {'kind': 'section-average-call', 'values': pre, 'dt': getattr(series, 'dt', None)},
+                               failing={'call': 'get_section_average', 'start': start, 'end': -1, 'index': True, 'got': got, 'expected': ref}),
+                  'get_section_average(start=%d, end=-1, index=True) on %d samples returned %r; the mean from sample %d to the end of the '
+                  'record (%s) is %r' % (start, pre.size, got, start, END_READINGS[_end_reading()], ref))
+        return
     if index is False:
         # time form: read back by the same_start monitor (its index convention is not judged), except the documented defaults /
         # sentinel end = -1 ("to the end of the record") with the start at a sample time: either reading of "to the end"
@@ -885,7 +1105,8 @@ def _post_section_average(args, kwargs, result, pre):
         rt = RTOL_AVG_F32 if pre.dtype.itemsize < 8 and pre.dtype.kind == 'f' else RTOL_AVG
         try:
             got = float(result)
-            okk = np.ndim(result) == 0 and math.isfinite(got) and any(abs(got - r_) <= rt * w_ for r_, w_ in refs)
+            r_, w_ = refs[_end_reading()]      # round 5: one reading per tree (probe records), not "either" per call
+            okk = np.ndim(result) == 0 and math.isfinite(got) and abs(got - r_) <= rt * w_
         except Exception:
             got, okk = result, False
 
@@ -898,10 +1119,10 @@ def _post_section_average(args, kwargs, result, pre):
         ctx.check(okk, 'section-average(end=-1)==mean(samples from start to the end of the record)',
                   lambda: wit_t(got=got, expected_without_last_sample=refs[0][0], expected_with_last_sample=refs[1][0]),
                   'get_section_average(start=%r, end=%r) on %d samples (dt %r) returned %r; the mean from sample %d to the end of the '
-                  'record is %r without the last sample, %r with it' % (start, end, pre.size, getattr(series, 'dt', None), got, i0,
-                                                                       refs[0][0], refs[1][0]))
+                  'record is %r without the last sample, %r with it; this tree reads "to the end" %s on the probe records'
+                  % (start, end, pre.size, getattr(series, 'dt', None), got, i0, refs[0][0], refs[1][0], END_READINGS[_end_reading()]))
         return
-    if not (index is True or (isinstance(index, np.bool_) and bool(index))) or pre is None or pre.ndim != 1 \
+    if not _flag_true(index) or pre is None or pre.ndim != 1 \
             or pre.dtype.kind not in 'fiu' or not _is_index(start) or not _is_index(end) or not (0 <= start < end <= pre.size) \
             or not np.all(np.isfinite(pre)):
         ctx.observe('section-average.out-of-domain-call')
@@ -945,11 +1166,12 @@ def install(ctx):
     import eqsig.fns.average as _fa
     attach.wrap(_fa, 'get_section_average', _post_section_average, pre=_pre_section)      # rebinds the alias used by Signal
     install._done = True
+    probe_end_convention(eqsig, ctx)
 
 
 # ------------------------------------------------------------------------------------------------ rotation workload
 VEC_FORMS = ['f64', 'f64', 'f64', 'f64', 'f32', 'i64', 'i32', 'i16', 'i8', 'u8', 'u16', 'list-float', 'list-int',
-             'tuple-float', 'mixed-list', 'noncontig', 'reversed-view', 'readonly']
+             'tuple-float', 'mixed-list', 'noncontig', 'reversed-view', 'readonly', 'bool', 'list-bool']
 ROT_LENGTHS = [1, 2, 3, 5, 15, 16, 17, 31, 32, 33, 63, 64, 65, 127, 128, 129, 150, 255, 256, 257, 300]
 LONG_N = 70000
 ROT_LONG_CASES = (3, 500, 1000)
@@ -1033,11 +1255,23 @@ def extra_record(rng, n, cls=None):
     return np.asarray(x, dtype=float) * amp, cls
 
 
+def pulses(rng, n):
+    """An on/off record (exact 0.0 / 1.0): runs of random length 1..6, starting on or off."""
+    out, state = [], bool(rng.random() < 0.5)
+    while len(out) < n:
+        out += [1.0 if state else 0.0] * int(rng.integers(1, 7))
+        state = not state
+    return np.array(out[:n], dtype=float)
+
+
 def draw_vector(rng, n, form, edge=None):
     """Exact float64 values that the form can represent, and a class label."""
     if rng.random() < 0.035:       # a silent (all-zero) component is a valid record
         return np.zeros(n), 'silent'
-    if form in INT_FORMS:
+    if form in ('bool', 'list-bool'):       # rectangular pulses: runs of on / off of random length
+        x = pulses(rng, n)
+        cls = 'bool-pulses'
+    elif form in INT_FORMS:
         lo, hi = int_range(form)
         x = rng.integers(lo, hi + 1, size=n).astype(float)
         cls = 'int-' + form
@@ -1062,7 +1296,7 @@ def draw_vector(rng, n, form, edge=None):
 def _angle_form(rng, th):
     forms = ['float', 'float', 'np.float64', '0d', 'np.float32']
     if float(th) == int(th):
-        forms += ['int', 'int', 'np.int64']
+        forms += ['int', 'int', 'np.int64', '0d-int']
     return forms[int(rng.integers(len(forms)))]
 
 
@@ -1073,15 +1307,16 @@ def _make_scan(rng, okind, mkey, points, pair180, style):
         off = float(rng.uniform(-3400, 3400))
     else:
         off = float(okind)
-    off_form = 'float'
+    off_form = ['float', 'float', 'np.float64', '0d'][int(rng.integers(4))]       # round 5: 0-d arrays (mutable scalars)
     if okind not in ('random', 'random-large'):
-        off_form = ['float', 'np.float64'][int(rng.integers(2))]
+        off_form = ['float', 'np.float64', '0d'][int(rng.integers(3))]
         if off == int(off):
-            off_form = ['float', 'int', 'np.float64', 'np.int64'][int(rng.integers(4))]
+            off_form = ['float', 'int', 'np.float64', 'np.int64', '0d', '0d-int'][int(rng.integers(6))]
+    points_form = ['int', 'int', 'int', 'np.int64', 'np.int32', '0d-int'][int(rng.integers(6))]
     if style == 'defaults':      # angle_off_ns and points left at their defaults (0.0, 100)
-        off, off_form, points, okind = 0.0, 'float', 100, 0
-    return {'offset': off, 'offset_kind': str(okind), 'offset_form': off_form, 'points': int(points), 'measure': mkey,
-            'pair180': bool(pair180), 'style': style}
+        off, off_form, points, okind, points_form = 0.0, 'float', 100, 0, 'int'
+    return {'offset': off, 'offset_kind': str(okind), 'offset_form': off_form, 'points': int(points), 'points_form': points_form,
+            'measure': mkey, 'pair180': bool(pair180), 'style': style}
 
 
 def make_rotation_case(rng, k):
@@ -1155,7 +1390,9 @@ def make_rotation_case(rng, k):
         scans.append(_make_scan(rng, OFFSET_KINDS[(k // 2) % len(OFFSET_KINDS)], aparam, [3, 1, 2, 5, 4][(k // 8) % 5], False,
                                 ['kw', 'positional'][(k // 3) % 2]))
     types = [['acc', 'acc'], ['sig', 'acc'], ['acc', 'sig'], ['sig', 'sig']][int(rng.integers(4))]
+    dtf = ['float', 'float', 'float', 'np.float64', '0d']       # round 5: the same step in two scalar forms ("equally sampled")
     case = {'kind': 'rotation', 'extreme': bool(extreme), 'ns': ns, 'we': we, 'dt': dt, 'types': types, 'forms': forms, 'same_object': bool(same_object),
+            'dt_forms': [dtf[int(rng.integers(5))], dtf[int(rng.integers(5))]], 'share_dt': bool(rng.random() < 0.3),
             'twin': bool(twin), 'angles': angles, 'angle_forms': aforms, 'scans': scans, 'classes': [c1, c2], 'edge': edge}
     # a second pair of the same shape (process-wide state) and a history on the same objects
     if not long_case:
@@ -1214,18 +1451,19 @@ def _mk_sig(eqsig, v, dt, kind):
 def _scan_call(eqsig, ns, we, sc, offset):
     m = measure_entry(sc['measure'])
     style = sc.get('style', 'kw')
-    off = angle_obj(offset, sc.get('offset_form', 'float')) if sc.get('offset_form', 'float') != '0d' else float(offset)
+    off = hold(angle_obj(offset, sc.get('offset_form', 'float')), 'compute_rotated(angle_off_ns)')
+    pts = hold(scalar_obj(sc['points'], sc.get('points_form', 'int')), 'compute_rotated(points)')
     if 'parameter' in m:
         if style == 'positional':
-            return eqsig.compute_rotated(ns, we, off, m['parameter'], None, sc['points'])
+            return eqsig.compute_rotated(ns, we, off, m['parameter'], None, pts)
         if style == 'defaults' and float(offset) == 0.0 and sc['points'] == 100:
             return eqsig.compute_rotated(ns, we, parameter=m['parameter'])
-        return eqsig.compute_rotated(ns, we, angle_off_ns=off, parameter=m['parameter'], points=sc['points'])
+        return eqsig.compute_rotated(ns, we, angle_off_ns=off, parameter=m['parameter'], points=pts)
     if style == 'positional':
-        return eqsig.compute_rotated(ns, we, off, None, m['func'], sc['points'])
+        return eqsig.compute_rotated(ns, we, off, None, m['func'], pts)
     if style == 'defaults' and float(offset) == 0.0 and sc['points'] == 100:
         return eqsig.compute_rotated(acc_sig_ns=ns, acc_sig_we=we, func=m['func'])
-    return eqsig.compute_rotated(ns, we, angle_off_ns=off, func=m['func'], points=sc['points'])
+    return eqsig.compute_rotated(ns, we, angle_off_ns=off, func=m['func'], points=pts)
 
 
 def _combine_and_relate(eqsig, ctx, case, ns, we, angles, aforms, tag):
@@ -1239,7 +1477,7 @@ def _combine_and_relate(eqsig, ctx, case, ns, we, angles, aforms, tag):
     res, rt = {}, {}
     for th, f in zip(angles, aforms):
         try:
-            res[th] = np.array(eqsig.combine_at_angle(ns, we, angle_obj(th, f)).values, dtype=float, copy=True)
+            res[th] = np.array(eqsig.combine_at_angle(ns, we, hold(angle_obj(th, f), 'combine_at_angle(angle)')).values, dtype=float, copy=True)
             rt[th] = rtol_rot_f32(th) if f == 'np.float32' else RTOL_ROT
         except Exception as e:
             ctx.exception('rotation==ns*cos+we*sin', dict(case, failing={'call': 'combine_at_angle', 'angle': th, 'form': f,
@@ -1509,25 +1747,31 @@ def run_rotation_case(eqsig, ctx, case):
     dt = case['dt']
     forms = case.get('forms', ['f64', 'f64'])
     CURRENT = case
+    del HELD[:]
     try:
         ns_in = apply_form(ns_v, forms[0])
         we_in = ns_in if case.get('same_object') else apply_form(we_v, forms[1])
         snaps = [snapshot(ns_in), snapshot(we_in)]
-        ns = _mk_sig(eqsig, ns_in, dt, case['types'][0])
+        # round 5: the common step in the scalar forms a caller may use (float, np.float64, a 0-d array - shared by both
+        # components in 30% of the cases); the monitors judge with the value at call entry, check_held with the caller's value
+        dtfs = case.get('dt_forms', ['float', 'float'])
+        dt_ns = hold(scalar_obj(dt, dtfs[0]), 'the time step of the ns component')
+        dt_we = dt_ns if case.get('share_dt') else hold(scalar_obj(dt, dtfs[1]), 'the time step of the we component')
+        ns = _mk_sig(eqsig, ns_in, dt_ns, case['types'][0])
         if case.get('same_object'):
             we = ns
         elif case.get('twin'):      # built from the other component's values, then given its own record
-            we = _mk_sig(eqsig, ns.values, dt, case['types'][1])
+            we = _mk_sig(eqsig, ns.values, dt_we, case['types'][1])
             we.reset_values(we_in)
         else:
-            we = _mk_sig(eqsig, we_in, dt, case['types'][1])
+            we = _mk_sig(eqsig, we_in, dt_we, case['types'][1])
         for s, f in ((ns, forms[0]), (we, forms[1])):
             if f == 'readonly' and isinstance(s.values, np.ndarray):
                 s.values.flags.writeable = False     # a function writing into its component would raise
         angles = case['angles']
         aforms = case.get('angle_forms', ['float'] * len(angles))
-        ns_a = eqsig.AccSignal(ns_in, dt)
-        we_a = ns_a if case.get('same_object') else eqsig.AccSignal(we_in, dt)
+        ns_a = eqsig.AccSignal(ns_in, dt_ns)
+        we_a = ns_a if case.get('same_object') else eqsig.AccSignal(we_in, dt_we)
         watched = [ns, we, ns_a, we_a]
         obs_before = [_observables(x) for x in watched]
         first = None
@@ -1560,6 +1804,31 @@ def run_rotation_case(eqsig, ctx, case):
                           'compute_rotated(parameter=%r) and compute_rotated(func=%s) disagree: %r vs %r' % (par, fkey, pa, pb))
         except Exception as e:
             ctx.exception('scan.parameter-vs-callable-twin', dict(case, failing={'where': 'twin scans'}), e)
+        # round 5: a result belongs to the caller - every array of an earlier result is overwritten, the same call is repeated with
+        # the same arguments and must give the first values again (tables handed out by reference from a cache)
+        if angles:
+            try:
+                r1 = eqsig.combine_at_angle(ns, we, angle_obj(angles[0], aforms[0]))
+                keep = np.array(r1.values, copy=True)
+                if isinstance(r1.values, np.ndarray) and r1.values.flags.writeable:
+                    r1.values[...] = -7.25
+                r2 = eqsig.combine_at_angle(ns, we, angle_obj(angles[0], aforms[0]))
+                okk = unchanged(r2.values, keep)
+                for scn in case['scans'][1:]:
+                    d1, p1 = _scan_call(eqsig, ns_a, we_a, scn, scn['offset'])
+                    kd, kp = np.array(d1, copy=True), np.array(p1, copy=True)
+                    for arr, junk in ((d1, -1.0), (p1, 12345.0)):
+                        if isinstance(arr, np.ndarray) and arr.flags.writeable:
+                            arr[...] = junk
+                    d2, p2 = _scan_call(eqsig, ns_a, we_a, scn, scn['offset'])
+                    okk = okk and unchanged(np.asarray(d2), kd) and unchanged(np.asarray(p2), kp)
+                ctx.check(okk, 'rotation.result-belongs-to-caller(overwritten, same call repeated)',
+                          lambda: dict(case, failing={'relation': 'overwrite the arrays of a result, repeat the call: first values again'}),
+                          'after the arrays of an earlier combine_at_angle / compute_rotated result were overwritten by the caller, the same '
+                          'call with the same arguments no longer returns the first values')
+            except Exception as e:
+                ctx.exception('rotation.result-belongs-to-caller(overwritten, same call repeated)',
+                              dict(case, failing={'where': 'overwrite and repeat'}), e)
         # every public observable of the component objects is as before (read on deep copies)
         ctx.check(all(_same_observables(b, _observables(x)) for b, x in zip(obs_before, watched)),
                   'rotation.component-objects-unchanged',
@@ -1631,6 +1900,7 @@ def run_rotation_case(eqsig, ctx, case):
         except Exception as e:
             ctx.exception('rotation.copied-component(no-exception)', dict(case, failing={'where': 'copies of components'}), e)
         # the caller's containers are untouched
+        check_held(ctx, case, 'rotation case')
         ctx.check(unchanged(ns_in, snaps[0]) and unchanged(we_in, snaps[1]), 'rotation.caller-arrays-unchanged',
                   lambda: dict(case, failing={'relation': 'caller arrays unchanged'}),
                   'a record handed to Signal/AccSignal (%s, %s) was modified by the rotation calls' % tuple(forms))
@@ -1644,8 +1914,10 @@ PATTERNS = [(nsig, master, signs) for nsig in (2, 3, 4) for master in range(nsig
 MODES = ['exact', 'samestart', 'workflow', 'exact', 'noisy', 'history', 'levels']
 BASE_CLASSES = ['noise', 'walk', 'quake', 'intnoise', 'chirp', 'beat', 'zeropad']
 CLUSTER_FORMS = ['array2d', 'array2d', 'array2d', 'list-of-arrays', 'list-of-lists', 'tuple-of-arrays', 'f32', 'i64', 'i32',
-                 'i16', 'i8', 'u8', 'u16', 'list-of-int-lists', 'noncontig-cols', 'noncontig-rows', 'fortran', 'readonly']
-CLUSTER_INT_FORMS = ('i64', 'i32', 'i16', 'i8', 'u8', 'u16', 'list-of-int-lists')
+                 'i16', 'i8', 'u8', 'u16', 'list-of-int-lists', 'noncontig-cols', 'noncontig-rows', 'fortran', 'readonly', 'bool',
+                 'list-of-bool-lists']
+CLUSTER_INT_FORMS = ('i64', 'i32', 'i16', 'i8', 'u8', 'u16', 'list-of-int-lists', 'bool', 'list-of-bool-lists')
+CLUSTER_BOOL_FORMS = ('bool', 'list-of-bool-lists')
 CLU_LONG_CASES = {5: 'exact', 143: 'samestart'}
 CLU_LENGTHS = [31, 32, 33, 63, 64, 65, 127, 128, 129, 255, 256, 257]
 
@@ -1659,6 +1931,8 @@ def cluster_container(vals, form):
         return [v.tolist() for v in vals]
     if form == 'list-of-int-lists':
         return [[int(x) for x in v] for v in vals]
+    if form == 'list-of-bool-lists':
+        return [[bool(x) for x in v] for v in vals]
     if form == 'tuple-of-arrays':
         return tuple(v.copy() for v in vals)
     if len(set(len(v) for v in vals)) != 1:
@@ -1697,6 +1971,22 @@ def container_unchanged(data, snap):
 
 
 def _window(rng, n, dt):
+    """Round 5: in 12% of the windows start and / or end are handed over as 0-d arrays (mutable scalars); the forms are stored under
+    '_forms' (popped by the driver) so that a witness replays them."""
+    kw = _window0(rng, n, dt)
+    if rng.random() < 0.12 and ('start' in kw or 'end' in kw):
+        forms = {}
+        for key in ('start', 'end'):
+            if key in kw and rng.random() < 0.7:
+                isint = isinstance(kw[key], (int, np.integer))
+                forms[key] = '0d-int' if isint else '0d'
+                kw[key] = int(kw[key]) if isint else float(kw[key])
+        if forms:
+            kw['_forms'] = forms
+    return kw
+
+
+def _window0(rng, n, dt):
     """same_start keyword arguments: the default window (0, 1) when it fits, boundary windows, else random inside."""
     T = (n - 1) * dt
     if n >= 2 and rng.random() < 0.14:
@@ -1759,6 +2049,8 @@ def _tm_kwargs(rng, steps, default_steps):
         return {'steps': steps}
     if r < 0.85:
         return {'steps': steps, 'verbose': 0}
+    if rng.random() < 0.3:       # round 5: the flag in a non-Python-bool form (`set_step is False` holds for False only)
+        return {'steps': steps, 'set_step': False, 'trim': True, '_forms': {'set_step': ['np.bool', '0d-bool'][int(rng.integers(2))]}}
     return {'steps': steps, 'set_step': False, 'trim': True}
 
 
@@ -1817,8 +2109,16 @@ def make_cluster_case(rng, k, extra=False, short=False):
     else:
         n = int(rng.integers(nmin, nmin + 40))
     dt = _wide_dt(rng)
+    # round 5: the step in the scalar forms a caller may use; a 0-d array is shared by the cluster and all its members
+    dt_form = ['float', 'float', 'float', 'np.float64', '0d'][int(rng.integers(5))]
+    if rng.random() < 0.05:
+        dt, dt_form = float(rng.choice([1.0, 2.0])), 'int'
+    steps_form = ['int', 'int', 'int', 'int', 'np.int64', 'np.int32', '0d-int', 'np.int64'][int(rng.integers(8))]
     # the base record
-    if form in CLUSTER_INT_FORMS:
+    if form in CLUSTER_BOOL_FORMS:        # round 5: on/off records (NumPy adds bools with OR; eqsig casts them to float)
+        base = pulses(rng, n + 2 * steps)
+        bcls = 'bool-pulses'
+    elif form in CLUSTER_INT_FORMS:
         lo, hi = int_range(form) if form in INT_FORMS else (-30000, 30000)
         base = rng.integers(lo, hi + 1, size=n + 2 * steps).astype(float)
         bcls = 'int-' + form
@@ -1864,7 +2164,9 @@ def make_cluster_case(rng, k, extra=False, short=False):
     values = []
     for i, l in enumerate(lags):
         if l is None:     # an unrelated record (same_start modes only)
-            if form in CLUSTER_INT_FORMS:
+            if form in CLUSTER_BOOL_FORMS:
+                v = pulses(rng, n)
+            elif form in CLUSTER_INT_FORMS:
                 lo, hi = int_range(form) if form in INT_FORMS else (-30000, 30000)
                 v = rng.integers(lo, hi + 1, size=n).astype(float)
             else:
@@ -1976,17 +2278,36 @@ def make_cluster_case(rng, k, extra=False, short=False):
                {'end': T + 1.5 * dt}][int(rng.integers(4))]
         first_len_change = min([j for j, o in enumerate(ops) if o[0] == 'sig.reset_values' and len(o[2]) != n] + [len(ops)])
         ops.insert(int(rng.integers(0, first_len_change + 1)), ['same_start!', bad])
-    if not long_case and rng.random() < 0.06:          # console output requested (captured): verbose=1
+    if not long_case and rng.random() < 0.06:          # console output requested (captured): verbose=1 / True / np.True_ / 0-d
+        vf = ['int', 'bool', 'np.bool', '0d-bool'][int(rng.integers(4))]
         for o in ops:
             if o[0] in ('same_start', 'time_match'):
-                o[1] = dict(o[1], verbose=1)
+                o[1] = dict(o[1], verbose=1, _forms=dict(o[1].get('_forms', {}), verbose=vf))
+    # round 5: user-given response periods of the cluster (a setting): 0.5 dt .. 300 dt, i.e. also below 2 dt where a "robust"
+    # reader is tempted to tidy; one entry, two, three (a 2-tuple looks like a range) or 31; read as s_a when the step is ordinary
+    resp_times, resp_form = None, 'array'
+    if not long_case and rng.random() < 0.3:
+        k_ = int(rng.choice([1, 2, 3, 31]))
+        resp_times = [float(x) for x in np.sort(dt * 10.0 ** rng.uniform(-0.3, 2.5, size=k_))]
+        resp_form = ['array', 'list', 'tuple'][int(rng.integers(3))]
+        if 0.002 <= dt <= 0.1 and n_eff >= 2:
+            ops.append(['sig.read', int(rng.integers(nsig)), 's_a'])
+            if rng.random() < 0.5:
+                ops.append(['same_start', _window(rng, n_eff, dt)])
+    # round 5: the index flag in boolean-like forms that are not the Python bool
+    flag_reads = []
+    if n_eff >= 2:
+        i0_ = int(rng.integers(0, n_eff - 1))
+        flag_reads.append([int(rng.integers(nsig)), ['np.bool', '0d-bool', 'int'][int(rng.integers(3))],
+                           ['samples', 'int-times', 'defaults', 'samples'][int(rng.integers(4))], i0_, int(rng.integers(i0_, n_eff))])
     # sections given as SAMPLE INDICES, read on the members before and after the operations
     index_reads = []
     for _ in range(3):
         j = int(rng.integers(5))
         s0 = [0, 0, n_eff - 1, int(rng.integers(0, n_eff)), int(rng.integers(0, n_eff))][j]
         e0 = [n_eff, 1, n_eff, s0 + 1, int(rng.integers(s0 + 1, n_eff + 1))][j]
-        index_reads.append([int(rng.integers(nsig)), int(s0), int(e0), ['kw', 'positional', 'np.int64', 'np.bool', 'function'][int(rng.integers(5))]])
+        index_reads.append([int(rng.integers(nsig)), int(s0), int(e0),
+                            ['kw', 'positional', 'np.int64', 'np.bool', 'function', '0d-bool', 'int-1', '0d-indices', 'end=-1'][int(rng.integers(9))]])
     # round 4: the documented defaults / sentinel of the time form (start=0, end=-1: to the end of the record), read on a member
     default_reads = [[int(rng.integers(nsig)), ['defaults', 'start=0', 'end=-1', 'start=i*dt', 'function-defaults', 'index=False'][int(rng.integers(6))],
                       int(rng.integers(0, max(1, n_eff - 1)))]] if n_eff >= 2 else []
@@ -1997,7 +2318,8 @@ def make_cluster_case(rng, k, extra=False, short=False):
         ops = [o for o in ops if o[0] != 'time_match'] + [['time_match?', tm_kw]]
     case = {'kind': 'cluster', 'values': values, 'dt': dt, 'master_index': master, 'stypes': stypes, 'names': names,
             'container': form, 'ops': ops, 'lags': [l if l is not None else 'unrelated' for l in lags],
-            'steps': steps, 'mode': mode, 'base_class': bcls, 'steps_as_np_int': bool(rng.random() < 0.1),
+            'steps': steps, 'mode': mode, 'base_class': bcls, 'steps_form': steps_form, 'dt_form': dt_form,
+            'resp_times': resp_times, 'resp_form': resp_form, 'flag_reads': flag_reads,
             'twin': bool(rng.random() < 0.3 and not long_case),
             'warm': bool(rng.random() < 0.6), 'deepcopy_twin': bool(rng.random() < 0.3 and not long_case),
             'ctor_master': ctor_master, 'ctor_style': ['kw', 'kw', 'positional'][int(rng.integers(3))],
@@ -2016,7 +2338,7 @@ def make_cluster_case(rng, k, extra=False, short=False):
         n2 = n + (int(rng.integers(1, 9)) if rng.random() < 0.5 else 0)        # same shape or a longer one
         b2, _ = gen.record(rng, n2 + 2 * steps, cls='noise')
         if form in CLUSTER_INT_FORMS:
-            b2 = rng.integers(0, 101, size=n2 + 2 * steps).astype(float)
+            b2 = rng.integers(0, 2 if form in CLUSTER_BOOL_FORMS else 101, size=n2 + 2 * steps).astype(float)
         case['second'] = [b2[steps + (l if isinstance(l, int) else 0): steps + n2 + (l if isinstance(l, int) else 0)].copy()
                           for l in case['lags']]
     return case
@@ -2043,6 +2365,16 @@ def _index_reads(eqsig, ctx, case, c):
                 sig.get_section_average(start=s0, end=e0, index=np.bool_(True))
             elif style == 'function':
                 eqsig.fns.average.get_section_average(sig, s0, e0, index=True)
+            elif style == '0d-bool':        # round 5: a set flag as a 0-d bool array / as 1
+                sig.get_section_average(start=s0, end=e0, index=hold(np.array(True), 'get_section_average(index)'))
+            elif style == 'int-1':
+                sig.get_section_average(s0, e0, 1)
+            elif style == '0d-indices':
+                sig.get_section_average(start=hold(np.array(s0), 'get_section_average(start)'),
+                                        end=hold(np.array(e0), 'get_section_average(end)'), index=True)
+            elif style == 'end=-1':         # the index form with the default / sentinel end
+                if s0 <= sig.npts - 2:
+                    sig.get_section_average(start=s0, index=True) if e0 % 2 else sig.get_section_average(s0, -1, np.True_)
             else:
                 sig.get_section_average(start=s0, end=e0, index=True)
         except Exception as e:
@@ -2072,11 +2404,55 @@ def _index_reads(eqsig, ctx, case, c):
                           dict(case, failing={'call': 'get_section_average', 'signal': int(i_), 'style': style}), e)
 
 
+PENDING_FLAG_FORMS = False     # round 5: the index-flag mechanism was ruled a genuine defect and repaired in eqsig (fix F46); see below for set_step
+FLAG_CLAUSE = 'section-average(index=False-like flag: np.False_, 0-d, 0)==section-average(index=False)'
+
+
+def _flag_reads(eqsig, ctx, case, c):
+    """Round 5: an UNSET flag handed over as np.False_, a 0-d bool array or 0 means what False means: the same section read with
+    index=False (the Python bool) and with the other form must give the same average (`index is False` holds for the first only)."""
+    for i_, form, kind, i0, i1 in case.get('flag_reads') or []:
+        if i_ >= len(c.signals):
+            continue
+        sig = c.signal_by_index(int(i_))
+        if sig.npts < 2 or not isinstance(sig.values, np.ndarray) or i1 >= sig.npts:
+            continue
+        dt = case['dt']
+        if kind == 'int-times' and (sig.npts - 1) * dt >= 1:
+            kw = {'start': 0, 'end': int(min(3, (sig.npts - 1) * dt))}
+        elif kind == 'defaults':
+            kw = {}
+        else:
+            kw = {'start': i0 * dt, 'end': min(i1 * dt, (sig.npts - 1) * dt)}
+        flag = hold(scalar_obj(False, form), 'get_section_average(index)')
+        try:
+            ref = float(sig.get_section_average(index=False, **kw))
+        except Exception:
+            ctx.observe('section-average.flag-form-reference-raises')
+            continue
+        try:
+            got = float(sig.get_section_average(index=flag, **kw))
+            okk = got == ref
+            txt = 'returned %r, with index=False %r' % (got, ref)
+        except Exception as e:
+            okk, txt = False, 'raised %r, with index=False it returns %r' % (e, ref)
+        if not okk and PENDING_FLAG_FORMS:
+            ctx.observe('pending-finding: get_section_average(index=np.False_ / 0-d False / 0) is read as index=True (time_indices tests `index is False`)')
+            continue
+        ctx.check(okk, FLAG_CLAUSE, lambda: dict(case, failing={'call': 'get_section_average', 'signal': int(i_), 'kwargs': kw, 'index_form': form}),
+                  'get_section_average(%r, index=%r) on %d samples (dt %r) %s' % (kw, flag, sig.npts, dt, txt))
+
+
 def _run_ops(eqsig, ctx, case, c, ops, judged=True):
     for op in ops:
         name = op[0]
         try:
-            if name == 'sig.read':
+            if name == 'sig.read' and op[2] == 's_a':      # a read at the user-given periods (not judged here; may refuse odd periods)
+                try:
+                    getattr(c.signal_by_index(int(op[1])), 's_a', None)
+                except Exception:
+                    ctx.observe('member.s_a-read-refused')
+            elif name == 'sig.read':
                 getattr(c.signal_by_index(int(op[1])), op[2], None)
             elif name == 'sig.reset_values':
                 c.signal_by_index(int(op[1])).reset_values(np.array(op[2], dtype=float))
@@ -2118,8 +2494,22 @@ def _run_ops(eqsig, ctx, case, c, ops, judged=True):
                     ctx.observe('time_match.single-signal-cluster-raises')
             else:
                 okw = dict(op[1])
-                if case.get('steps_as_np_int') and 'steps' in okw:
-                    okw['steps'] = np.int64(okw['steps'])
+                forms = dict(okw.pop('_forms', None) or {})
+                if 'steps' in okw:
+                    forms.setdefault('steps', 'np.int64' if case.get('steps_as_np_int') else case.get('steps_form', 'int'))
+                for k_, f_ in forms.items():        # round 5: scalar forms (0-d arrays are held and must keep their value)
+                    if k_ in okw:
+                        okw[k_] = hold(scalar_obj(okw[k_], f_), '%s(%s)' % (name, k_))
+                if name == 'time_match' and 'set_step' in forms:
+                    try:        # an unset flag in a non-Python-bool form: `set_step is False` fails -> nothing is matched, then
+                        getattr(c, name)(**okw)       # UnboundLocalError at `return min_ind`
+                        if judged:
+                            ctx.ok('%s.returns(no-exception)' % name)
+                    except UnboundLocalError:
+                        # ruled outside the statement: set_step means "False or a step", the lag-matching clause says nothing
+                        # about a false value in another form; counted only
+                        ctx.observe('ruled outside the statement: time_match(set_step=np.False_ / 0-d False) raises UnboundLocalError (`set_step is False`)')
+                    continue
                 if okw.get('verbose'):
                     import contextlib
                     import io
@@ -2150,13 +2540,22 @@ def run_cluster_case(eqsig, ctx, case):
     if case.get('names') is not None:
         kw['names'] = list(case['names'])
     CURRENT = case
+    del HELD[:]
+    # round 5: the step in the caller's scalar form (a 0-d array is one object shared by every cluster built here and all members)
+    dt_obj = hold(scalar_obj(case['dt'], case.get('dt_form', 'float')), 'Cluster(dt)')
+    rt_in = rt_snap = None
+    if case.get('resp_times') is not None:
+        rt_in = {'list': list, 'tuple': tuple}.get(case.get('resp_form'), np.array)(case['resp_times'])
+        rt_snap = np.array(case['resp_times'], dtype=float)
     try:
         try:
-            if case.get('ctor_style') == 'positional':        # Cluster(values, dt, names, master_index, stypes)
-                c = eqsig.Cluster(data, case['dt'], kw.get('names'), kw['master_index'], kw.get('stypes', 'custom'))
+            if case.get('ctor_style') == 'positional' and rt_in is None:        # Cluster(values, dt, names, master_index, stypes)
+                c = eqsig.Cluster(data, dt_obj, kw.get('names'), kw['master_index'], kw.get('stypes', 'custom'))
+            elif rt_in is not None:
+                c = eqsig.Cluster(data, dt_obj, resp_times=rt_in, **kw)
             else:
-                c = eqsig.Cluster(data, case['dt'], **kw)
-            twin = eqsig.Cluster(data, case['dt'], **kw) if case.get('twin') else None
+                c = eqsig.Cluster(data, dt_obj, **kw)
+            twin = eqsig.Cluster(data, dt_obj, **kw) if case.get('twin') else None
         except Exception as e:
             ctx.exception('cluster.constructs', dict(case), e)
             return
@@ -2180,6 +2579,7 @@ def run_cluster_case(eqsig, ctx, case):
                 for attr in ('pga', 'pgv', 'velocity', 'fa_spectrum'):
                     getattr(m_, attr, None)
         _index_reads(eqsig, ctx, case, c)
+        _flag_reads(eqsig, ctx, case, c)
         dc = None
         j_copy = int(case.get('copy_after', 0)) if case.get('deepcopy_twin') else 0
         if j_copy and not _run_ops(eqsig, ctx, case, c, case['ops'][:j_copy]):
@@ -2195,6 +2595,21 @@ def run_cluster_case(eqsig, ctx, case):
         if not _run_ops(eqsig, ctx, case, c, case['ops'][j_copy:]):
             return
         _index_reads(eqsig, ctx, case, c)
+        # round 5: after every read and operation the step and the periods are what the CALLER gave (value for value), on the
+        # cluster and on every member; the caller's own period container is untouched
+        try:
+            sigs_ = [c.signal_by_index(i_) for i_ in range(len(c.signals))]
+            okk = float(c.dt) == float(case['dt']) and all(float(s_.dt) == float(case['dt']) for s_ in sigs_)
+            if rt_snap is not None:
+                okk = okk and np.array_equal(np.asarray(c.response_times), rt_snap) and np.array_equal(np.asarray(rt_in), rt_snap) \
+                    and type(rt_in) is {'list': list, 'tuple': tuple}.get(case.get('resp_form'), np.ndarray) \
+                    and all(np.array_equal(np.asarray(s_.response_times), rt_snap) for s_ in sigs_ if hasattr(s_, 'response_times'))
+        except Exception:
+            okk = False
+        ctx.check(okk, 'cluster.step-and-periods-as-given(after reads and operations)',
+                  lambda: dict(case, failing={'relation': 'dt / response periods of the cluster and its members == what the caller gave'}),
+                  'after %s the time step or the response periods of the cluster / its members are not what the caller gave '
+                  '(dt %r, periods %r)' % ([o[0] for o in case['ops']], case['dt'], case.get('resp_times')))
         ctx.check(own(), 'cluster.members-own-their-data', lambda: dict(case, failing={'relation': 'ownership after the operations'}),
                   'a Cluster member shares memory with the caller container / another member after %s' % [o[0] for o in case['ops']])
         if case.get('warm'):
@@ -2243,7 +2658,7 @@ def run_cluster_case(eqsig, ctx, case):
             held = [c.values_by_index(i) for i in range(len(vals))]
             held_copy = [np.array(v, copy=True) for v in held]
             try:
-                c2 = eqsig.Cluster(cluster_container(sec, case.get('container', 'list-of-arrays')), case['dt'], **kw)
+                c2 = eqsig.Cluster(cluster_container(sec, case.get('container', 'list-of-arrays')), dt_obj, **kw)
             except Exception as e:
                 ctx.exception('cluster.constructs', dict(case, failing={'which': 'second'}), e)
                 return
@@ -2255,7 +2670,7 @@ def run_cluster_case(eqsig, ctx, case):
                       'the aligned signals of the first cluster changed while a second cluster of the same shape was processed')
             if case.get('third_run'):      # f(A); f(B); f(A): the result depends on the arguments only
                 try:
-                    c3 = eqsig.Cluster(data, case['dt'], **kw)
+                    c3 = eqsig.Cluster(data, dt_obj, **({} if rt_in is None else {'resp_times': rt_in}), **kw)
                 except Exception as e:
                     ctx.exception('cluster.constructs', dict(case, failing={'which': 'third'}), e)
                     return
@@ -2270,7 +2685,10 @@ def run_cluster_case(eqsig, ctx, case):
                           'the same container processed the same way a second time (after a cluster of another record was '
                           'processed in between) ends with different signals')
     finally:
-        CURRENT = None
+        try:
+            check_held(ctx, case, 'cluster case')
+        finally:
+            CURRENT = None
 
 
 # ------------------------------------------------------------------------------------------------ shard driver
@@ -2363,6 +2781,8 @@ def replay(w):
                 eqsig.combine_at_angle(ns, we, w['angle'])
         except Exception as e:
             ctx.exception('rotation==ns*cos+we*sin', w, e)
+    elif kind == 'end-convention-probe':
+        pass                   # the probe ran inside install(); its verdict is in ctx.violations
     else:
         return ['unknown witness kind %r' % kind]
     return ['%s: %s' % (v['clause'], v['msg']) for v in ctx.violations]
